@@ -84,4 +84,60 @@ def occurrence_table(r=None):
                                                 "attributes", "member-type-foreign"})
 
 
+def order_family(perm, default_ns=False, two_files=False):
+    """One small schema whose eight components refer to each other in every way (member type, ref=, base=, an element named
+    like its type, a two-step extension chain, an anonymous-typed element), written in the declaration order `perm` (a
+    permutation of range(8)). The *content* is the same for every permutation, so the expected Rust shapes are, too: only the
+    order in which the reader meets declarations and references changes. `default_ns`: own references carry no prefix;
+    `two_files`: the same components again in a second file (twin layout) that is imported."""
+    def build(idx, uri, pfx):
+        f = _file(idx, uri, {idx: pfx})
+        own = lambda c: TypeRef(c.name.xml, idx, c)     # noqa: E731
+        code = SimpleType(N("code"), TypeRef("string"), Facets(max_length=8), None, idx)
+        # an own type that is called like a built-in one: `tns:date` (or `date` under a default namespace) is this type
+        date = SimpleType(Name(("date",), "snake"), TypeRef("string"), Facets(enumeration=["today", "never"]), None, idx)
+        node = ComplexType(N("node"), Content(Group("sequence", 1, 1, [LocalElement(N("inh"), TypeRef("string")),
+                                                                       LocalElement(N("mark"), own(code), 0, 1),
+                                                                       LocalElement(N("when"), own(date), 0, 1)]),
+                                              [Attr(N("rev"), TypeRef("int"), False)]), file=idx)
+        node_el = GlobalElement(N("node"), type=own(node), file=idx)
+        derived = ComplexType(N("derived"), Content(Group("sequence", 1, 1, [LocalElement(N("own"), TypeRef("int"))]),
+                                                    [Attr(N("flag"), TypeRef("boolean"), False)]), base=own(node), file=idx)
+        leaf = ComplexType(N("leaf"), Content(Group("sequence", 1, 1, [LocalElement(N("leafy"), TypeRef("string"), 0, 1)]), []),
+                           base=own(derived), file=idx)
+        user = ComplexType(N("user"), Content(Group("sequence", 1, 1, [ElementRef(own(node_el)), LocalElement(N("n"), own(node), 0, 3),
+                                                                       LocalElement(N("d"), own(derived), 0, 1),
+                                                                       LocalElement(N("l"), own(leaf), 0, 1)]), []), file=idx)
+        wrapper = GlobalElement(N("wrapper"), content=Content(Group("sequence", 1, 1, [ElementRef(own(node_el), 0, 1),
+                                                                                       LocalElement(N("extra"), own(code))]), []), file=idx)
+        comps = [code, node, node_el, derived, leaf, user, wrapper, date]
+        f.components = [comps[i] for i in perm]
+        return f
+    f0 = build(0, "http://zv.test/order/main", "" if default_ns else "tns")
+    files = [f0]
+    if two_files:
+        f1 = build(1, "http://zv.test/order/twin", "" if default_ns else "tns")
+        f0.imports = [1]
+        f0.prefixes[1] = "tw"
+        files.append(f1)
+    feats = {"order-family", "extension", "element-ref", "element-named-like-its-type", "attributes", "extension-attributes"}
+    if default_ns:
+        feats.add("own-namespace-as-default")
+    if two_files:
+        feats.add("twin-file")
+    return SchemaSet(files, "f0.xsd", None, feats)
+
+
+def order_family_programs(r, n):
+    """n members of the family: random permutations, the variants cycling."""
+    out = []
+    for k in range(n):
+        perm = list(range(8))
+        r.shuffle(perm)
+        dn, tf = bool(k & 1), bool(k & 2)
+        out.append(("order:" + "".join(map(str, perm)) + ("+default-ns" if dn else "") + ("+twin" if tf else ""),
+                    order_family(perm, dn, tf)))
+    return out
+
+
 TABLES = {"occurrence_table": occurrence_table}
